@@ -8,6 +8,7 @@
 
 #define M_TASK_MAX_THREADS    16
 
+static void src_release(void *data);
 static void src_priv_dtor(void *data);
 static void *task_thread(void *data);
 static ev_src_t *create_src(m_mod_t *mod, m_src_types type, process_cb proc,
@@ -68,7 +69,12 @@ static process_cb src_procs_map[] = {
 };
 _Static_assert(sizeof(src_procs_map) / sizeof(*src_procs_map) == M_SRC_TYPE_END, "Undefined source processor function.");
 
-static void src_priv_dtor(void *data) {
+/*
+ * A source leaves its module's registry (deregistered, oneshot fired, module stopped...):
+ * stop polling on it right now, while its module is there to tell us whether it is polled;
+ * its memory may live longer (eg: it is referenced by an event still held by the user).
+ */
+static void src_release(void *data) {
     ev_src_t *t = (ev_src_t *)data;
 
     /* If a fd is deregistered for a RUNNING module, stop polling on it */
@@ -76,6 +82,11 @@ static void src_priv_dtor(void *data) {
         M_MOD_CTX(t->mod);
         poll_set_new_evt(&c->ppriv, t, RM);
     }
+    m_mem_unref(t);
+}
+
+static void src_priv_dtor(void *data) {
+    ev_src_t *t = (ev_src_t *)data;
 
     /* Properly manage autoclose flag */
     if (t->flags & M_SRC_FD_AUTOCLOSE) {
@@ -328,7 +339,7 @@ static ev_src_t *process_thresh(ev_src_t *this, m_ctx_t *c, int idx, evt_priv_t 
 /** Private API **/
 
 int init_src(m_mod_t *mod, m_src_types t) {
-    mod->srcs[t] = m_bst_new(src_cmp_map[t], mem_dtor);
+    mod->srcs[t] = m_bst_new(src_cmp_map[t], src_release);
     if (!mod->srcs[t]) {
         return -ENOMEM;
     }
